@@ -43,6 +43,7 @@ def engines():
             "std-big": (pb.Base64Engine(STD, big=True), STD, True, True),
             "std-little": (pb.Base64Engine(STD), STD, False, True),
             "libpass-h64": (lb.h64_engine, H64, False, False),
+            "libpass-h64big": (lb.Base64Engine(lb.B64_CHARS, big=True), H64, True, False),
         }
     return _ENGINES
 
